@@ -35,6 +35,9 @@ func DrawKnobs(s *Sim) Knobs {
 		RemoveW:  []int{1, 3, 5}[t.CfgDraw(3)],
 		FeeW:     []int{0, 1, 2}[t.CfgDraw(3)],
 	}
+	if s.Mode.ManyHtlcs {
+		k.AddW, k.RemoveW, k.SignW, k.DeliverW = 24, 2, 1, 14
+	}
 	if s.Mode.Cuts {
 		k.CutW = []int{1, 1, 2, 3}[t.CfgDraw(4)]
 	}
